@@ -65,7 +65,12 @@ func c11Gen(r *Rng, tier string, i int) Sx {
 			reg, raw = pad+reg, pad+raw
 		}
 	}
-	return c11Mk(strict, enc, prefixes, reg, raw)
+	c := c11Mk(strict, enc, prefixes, reg, raw)
+	if r.Chance(1, 5) && !strings.ContainsAny(reg+raw+strings.Join(prefixes, ""), "{}[]") {
+		// the same for a DYNAMIC route: registered as reg + "/{id}", requested as the path + "/7"
+		c.List = append(c.List, A("dyn"))
+	}
+	return c
 }
 
 // c11Mutate returns another spelling (or a near miss) of p
@@ -103,6 +108,9 @@ func c11Exec(c Sx) (obs Sx) {
 	reg, dec, esc := xs[4].Str(), xs[5].Str(), xs[6].Str()
 	if strings.ContainsAny(reg+strings.Join(prefixes, ""), "{}[]") {
 		panic("c11: dynamic pattern characters are outside this property's cases")
+	}
+	if len(xs) > 7 && xs[7].Atom == "dyn" {
+		reg, dec, esc = reg+"/{id}", dec+"/7", esc+"/7"
 	}
 	u := &url.URL{Path: dec, RawPath: esc}
 	if u.EscapedPath() != esc {
